@@ -8,8 +8,8 @@
 (* line of the generating replica starts a scenario.  Deterministic and total.            *)
 EXTENDS Integers, Sequences, FiniteSets, TLC, Json
 
-VARIABLES l, recs, restarted, restartedAt, tainted, viol, nscn, ncommit
-tvars == <<l, recs, restarted, restartedAt, tainted, viol, nscn, ncommit>>
+VARIABLES l, recs, restarted, restartedAt, tainted, impTaint, viol, nscn, ncommit
+tvars == <<l, recs, restarted, restartedAt, tainted, impTaint, viol, nscn, ncommit>>
 
 Trace == ndJsonDeserialize("trace.ndjson")
 
@@ -46,9 +46,10 @@ RecDiff(a, b) ==
     ELSE "appHash"
 
 GasKind == "gasUsed-of-tx-rejected-before-ante-handler"
+UnbondKinds == {"undelegate", "redelegate", "pc_undelegate"}
 DivergenceProp(r1, r2) == IF restarted[r1] \/ restarted[r2] THEN "C20" ELSE "C01"
 
-TraceInit == l = 1 /\ recs = <<>> /\ restarted = <<>> /\ restartedAt = <<>> /\ tainted = {} /\ viol = {} /\ nscn = 0 /\ ncommit = 0
+TraceInit == l = 1 /\ recs = <<>> /\ restarted = <<>> /\ restartedAt = <<>> /\ tainted = {} /\ impTaint = "" /\ viol = {} /\ nscn = 0 /\ ncommit = 0
 
 TraceNext ==
     /\ l <= Len(Trace)
@@ -59,6 +60,7 @@ TraceNext ==
                  /\ restarted' = IF e.r = "gen" THEN (e.r :> FALSE) ELSE (e.r :> FALSE) @@ restarted
                  /\ restartedAt' = IF e.r = "gen" THEN (e.r :> -1) ELSE (e.r :> -1) @@ restartedAt
                  /\ tainted' = IF e.r = "gen" THEN {} ELSE tainted
+                 /\ impTaint' = IF e.r = "gen" THEN "" ELSE impTaint
                  /\ nscn' = IF e.r = "gen" THEN nscn + 1 ELSE nscn
                  /\ UNCHANGED <<viol, ncommit>>
             [] e.ev = "commit" ->
@@ -77,26 +79,51 @@ TraceNext ==
                       \cup {Sig("C15", e.broken[j].route, "-", e) : j \in 1..Len(e.broken)}
                  /\ tainted' = tainted \cup (IF \E r2 \in DOMAIN recs \ {e.r} : Len(recs[r2]) >= e.h /\ recs[r2][e.h] # e.rec
                                                             /\ RecDiff(recs[r2][e.h], e.rec) = GasKind THEN {e.r} ELSE {})
-                 /\ UNCHANGED <<restarted, restartedAt, nscn>>
+                 /\ UNCHANGED <<restarted, restartedAt, impTaint, nscn>>
             [] e.ev = "local" ->
                  /\ viol' = viol \cup (IF e.before = e.after THEN {}
                                        ELSE {Sig(IF restarted[e.r] THEN "C20" ELSE "C01", "local-action-changed-committed-state", e.kind, e)})
-                 /\ UNCHANGED <<recs, restarted, restartedAt, tainted, nscn, ncommit>>
+                 /\ UNCHANGED <<recs, restarted, restartedAt, tainted, impTaint, nscn, ncommit>>
             [] e.ev = "restart" ->
                  /\ restarted' = [restarted EXCEPT ![e.r] = TRUE]
                  /\ restartedAt' = [restartedAt EXCEPT ![e.r] = e.h]
                  /\ viol' = viol \cup (IF e.info = e.expect THEN {}
                                        ELSE {Sig("C20", IF e.info.height # e.expect.height THEN "info-height" ELSE "info-appHash", "-", e)})
-                 /\ UNCHANGED <<recs, tainted, nscn, ncommit>>
+                 /\ UNCHANGED <<recs, tainted, impTaint, nscn, ncommit>>
             [] e.ev = "imported_block" ->
-                 \* the chain started from the exported genesis executes the following blocks like the original
-                 /\ viol' = viol \cup {Sig("C19", "behaviour-after-import:" \o e.txs[j].k,
-                                           IF e.txs[j].code # e.txs[j].gen_code \/ e.txs[j].codespace # e.txs[j].gen_codespace THEN "code" ELSE "data", e) :
-                                       j \in {x \in 1..Len(e.txs) : \/ e.txs[x].code # e.txs[x].gen_code
-                                                                    \/ e.txs[x].codespace # e.txs[x].gen_codespace
-                                                                    \/ e.txs[x].data # e.txs[x].gen_data}}
-                 /\ UNCHANGED <<recs, restarted, restartedAt, tainted, nscn, ncommit>>
+                 \* the chain started from the exported genesis executes the following blocks like the original:
+                 \* same code, result data and gas of every transaction (the gas of a transaction rejected before
+                 \* the ante handler is F13's subject - a fresh process - and is not compared here)
+                 LET differs(t) == \/ t.code # t.gen_code \/ t.codespace # t.gen_codespace \/ t.data # t.gen_data
+                                   \/ (t.gas # t.gen_gas /\ ~(t.gen_code # 0 /\ t.gasWanted = 0))
+                     bad == {x \in 1..Len(e.txs) : differs(e.txs[x])}
+                     first == IF bad = {} THEN 0 ELSE CHOOSE x \in bad : \A y \in bad : x <= y
+                     \* x/staking's unbonding-id counter is not part of the genesis document: the first unbonding
+                     \* operation after an import reads no counter (8 bytes less: 24 gas) and re-issues ids from 1
+                     counterLost(t) == /\ t.k \in UnbondKinds /\ t.code = t.gen_code /\ t.code = 0 /\ t.data = t.gen_data
+                                       /\ t.gen_gas - t.gas = 24
+                     what(t) == IF t.code # t.gen_code \/ t.codespace # t.gen_codespace THEN "code"
+                                ELSE IF t.data # t.gen_data THEN "data" ELSE "gasUsed"
+                     \* F13 on the imported chain (a fresh application object): a transaction rejected before the ante
+                     \* handler reports the gas of the block context, first BeginBlock included; it feeds the block
+                     \* gas and hence the next base fee
+                     f13(t) == t.gen_code # 0 /\ t.gasWanted = 0 /\ t.gas # t.gen_gas /\ t.code = t.gen_code
+                     anyF13 == \E x \in 1..Len(e.txs) : f13(e.txs[x])
+                     cause == IF impTaint # "" THEN impTaint
+                              ELSE IF first # 0 /\ counterLost(e.txs[first]) THEN "ubd"
+                              ELSE IF anyF13 THEN "f13" ELSE ""
+                     follow(c) == IF c = "ubd" THEN "divergence-following-loss-of-unbonding-id-counter"
+                                  ELSE "divergence-following-" \o GasKind
+                 IN /\ viol' = viol \cup
+                         {IF impTaint # "" THEN Sig("C19", follow(impTaint), "after-import", e)
+                          ELSE IF counterLost(e.txs[x]) /\ x = first
+                          THEN Sig("C19", "unbonding-id-counter-not-in-genesis", "first-unbonding-operation-after-import:gasUsed-24", e)
+                          ELSE IF first # 0 /\ counterLost(e.txs[first]) THEN Sig("C19", follow("ubd"), "after-import", e)
+                          ELSE Sig("C19", "behaviour-after-import:" \o e.txs[x].k, what(e.txs[x]), e) : x \in bad}
+                    /\ impTaint' = cause
+                    /\ UNCHANGED <<recs, restarted, restartedAt, tainted, nscn, ncommit>>
             [] e.ev = "export_import" ->
+                 /\ impTaint' = ""      \* a new chain is started from this export
                  /\ viol' = viol \cup
                       (IF ~e.ok THEN {Sig("C19", "export-import-failed", "-", e)}
                        ELSE {Sig("C19", m, e.norm[m][p], e) :
